@@ -25,7 +25,8 @@ ASSUMPTIONS = [
     "V(gamma)=exp(i gamma x^3/3hbar), CX/CZ s dimensionless",
 ]
 REQUIRED_LABELS = {"all": ["backend:gaussian", "backend:bosonic", "backend:fock", "op:Xgate", "op:Zgate", "op:Gaussian", "op:MeasureHomodyne",
-                           "op:Vgate", "api:wigner", "api:quad_expectation"]}
+                           "op:Vgate", "api:wigner", "api:quad_expectation", "api:parity_expectation", "api:squeezing", "api:is_coherent",
+                           "api:poly_quad_expectation", "api:fidelity_coherent"]}
 
 G_ALPH = ["Xgate", "Zgate", "Pgate", "CXgate", "CZgate", "Coherent", "DisplacedSqueezed", "Dgate", "Sgate", "BSgate", "Rgate", "S2gate",
           "LossChannel", "Thermal", "MZgate", "Fouriergate"]
@@ -80,7 +81,124 @@ def gen_case(draw, fock=False):
         ops_.insert(draw(st.integers(0, len(ops_))), ["Gaussian", [spec.enc_matrix(V), spec.enc_vec(r)], modes, {"kw": {"decomp": draw(st.booleans())}}])
     elif kind == "MeasureHomodyne":
         ops_.append(["MeasureHomodyne", [draw(gen.angle())], [m], {"select": draw(gen.fl(-1.0, 1.0)) * np.sqrt(h1 / 2) * (0.4 if fock else 1)}])
-    return {"n": n, "h1": h1, "h2": h2, "ops": ops_}
+    return {"n": n, "h1": h1, "h2": h2, "ops": ops_, "queries": draw(api_queries(n, fock))}
+
+
+@st.composite
+def api_queries(draw, n, fock=False):
+    """a sequence of state-method calls (the same sequence is issued on the state at both hbar values, in this order)"""
+    names = ["mean_photon", "fidelity_vacuum", "fidelity_coherent", "fock_prob", "parity_expectation", "number_expectation", "displacement",
+             "reduced_dm", "poly_quad_expectation", "quad_expectation"]
+    if not fock:
+        names += ["is_coherent", "is_squeezed", "squeezing", "is_coherent", "squeezing"]
+    out = []
+    for _ in range(draw(st.integers(2, 6))):
+        nm = draw(st.sampled_from(names))
+        m = draw(st.integers(0, n - 1))
+        sub = sorted(draw(st.permutations(list(range(n))))[:draw(st.integers(1, n))])
+        if nm in ("mean_photon", "is_coherent", "is_squeezed", "reduced_dm"):
+            out.append([nm, m])
+        elif nm == "quad_expectation":
+            out.append([nm, m, draw(gen.angle())])
+        elif nm == "fidelity_vacuum":
+            out.append([nm])
+        elif nm == "fidelity_coherent":
+            out.append([nm, [[draw(gen.fl(-0.6, 0.6)), draw(gen.fl(-0.6, 0.6))] for _ in range(n)]])
+        elif nm == "fock_prob":
+            out.append([nm, [draw(st.integers(0, 2)) for _ in range(n)]])
+        elif nm in ("parity_expectation", "squeezing", "displacement"):
+            out.append([nm, sub])
+        elif nm == "number_expectation":
+            out.append([nm, sub[:2]])
+        else:
+            out.append([nm, m, draw(st.sampled_from(["xx", "pp", "xp", "n"]))])
+    return out
+
+
+def _flat(x):
+    if x is None:
+        return [float("nan")]
+    if isinstance(x, (tuple, list)):
+        return [z for y in x for z in _flat(y)]
+    return [complex(z) for z in np.ravel(np.asarray(x))]
+
+
+def run_queries(state, queries, n, hbar, cutoff=5):
+    """-> list of (name, kind, values | exception type name); kind: 'dimless' | 'sqrt' | 'lin' | 'lin_sq' (how the values scale with hbar)"""
+    res = []
+    for q in queries:
+        nm = q[0]
+        kind = "dimless"
+        try:
+            if nm in ("mean_photon", "is_coherent", "is_squeezed"):
+                v = getattr(state, nm)(q[1])
+            elif nm == "reduced_dm":
+                v = state.reduced_dm(q[1], cutoff=cutoff)
+            elif nm == "quad_expectation":
+                v = state.quad_expectation(q[1], q[2])
+                kind = "quad"
+            elif nm == "fidelity_vacuum":
+                v = state.fidelity_vacuum()
+            elif nm == "fidelity_coherent":
+                v = state.fidelity_coherent([complex(a, b) for a, b in q[1]])
+            elif nm == "fock_prob":
+                v = state.fock_prob(list(q[1]), cutoff=cutoff)
+            elif nm in ("parity_expectation", "number_expectation"):
+                v = getattr(state, nm)(list(q[1]))
+            elif nm == "displacement":
+                v = state.displacement(list(q[1]))
+            elif nm == "squeezing":
+                v = state.squeezing(list(q[1]))
+                kind = "squeezing"
+            else:
+                A = np.zeros((2 * n, 2 * n))
+                m = q[1]
+                if q[2] == "xx":
+                    A[m, m] = 1.0
+                elif q[2] == "pp":
+                    A[m + n, m + n] = 1.0
+                elif q[2] == "xp":
+                    A[m, m + n] = A[m + n, m] = 0.5
+                else:
+                    A[m, m] = A[m + n, m + n] = 0.5
+                v = state.poly_quad_expectation(A)
+                kind = "poly2"
+            res.append((nm, kind, _flat(v)))
+        except Exception as exc:  # pylint: disable=broad-except
+            res.append((nm, "raised", type(exc).__name__))
+    return res
+
+
+def compare_queries(r1, r2, h1, h2, tol):
+    """-> None or (query name, detail)"""
+    for (nm, kind, a), (_, kind2, b) in zip(r1, r2):
+        if kind == "raised" or kind2 == "raised":
+            if kind != kind2 or a != b:
+                return nm, "%s: %r at hbar=%g but %r at hbar=%g" % (nm, a, h1, b, h2)
+            continue
+        a, b = np.array(a, complex), np.array(b, complex)
+        if a.shape != b.shape:
+            return nm, "%s: result shapes differ (%s vs %s)" % (nm, a.shape, b.shape)
+        if kind == "quad":
+            a = a / np.array([np.sqrt(h1), h1])
+            b = b / np.array([np.sqrt(h2), h2])
+        elif kind == "poly2":
+            a = a / np.array([h1, h1 ** 2])
+            b = b / np.array([h2, h2 ** 2])
+        elif kind == "squeezing":
+            # (r, phi) per mode: phi is undefined for r = 0, and r = arccosh(..)/2 amplifies rounding near 0
+            a2, b2 = a.reshape(-1, 2), b.reshape(-1, 2)
+            if float(np.max(np.abs(a2[:, 0] - b2[:, 0]))) > 1e-5:
+                return nm, "squeezing r: %s at hbar=%g, %s at hbar=%g" % (a2[:, 0].real, h1, b2[:, 0].real, h2)
+            for (ra, pa), (rb, pb) in zip(a2, b2):
+                if abs(ra) > 1e-3 and abs(np.exp(1j * pa) - np.exp(1j * pb)) > 1e-4:
+                    return nm, "squeezing phi: %s at hbar=%g, %s at hbar=%g" % (pa.real, h1, pb.real, h2)
+            continue
+        both_nan = np.isnan(a) & np.isnan(b)
+        d = np.where(both_nan, 0.0, np.abs(a - b))
+        if np.any(np.isnan(d)) or float(np.max(d)) > 1e3 * tol * (1 + float(np.nanmax(np.abs(a)))):
+            return nm, "%s%s = %s at hbar=%g but %s at hbar=%g (after removing the documented hbar scaling)" % (nm, "" if kind == "dimless" else "[%s]" % kind, np.round(a, 8).tolist(), h1, np.round(b, 8).tolist(), h2)
+    return None
 
 
 def _gauss_op_specs(ops_):
@@ -166,6 +284,19 @@ def check_ps(ctx, case):
             W2 = np.array(s2.wigner(mode, xv * f, pv * f), float)
             if float(np.max(np.abs(W2 * f * f - W1))) > 1e3 * tol * (1 + float(np.max(np.abs(W1)))):
                 return _fail(ctx, case, labels, "%s.api.wigner_not_covariant" % be, "W2(fx, fp) f^2 differs from W1(x, p) by %.3g" % float(np.max(np.abs(W2 * f * f - W1))), be)
+            # a generated sequence of further state-method calls, the same on both states; afterwards the moments are read again
+            # (a query must not change what later queries answer)
+            qs = case.get("queries") or []
+            r1q, r2q = run_queries(s1, qs, n, h1), run_queries(s2, qs, n, h2)
+            labels += sorted({"api:" + q[0] for q in qs})
+            bad = compare_queries(r1q, r2q, h1, h2, tol)
+            if bad:
+                return _fail(ctx, case, labels, "%s.api.%s_depends_on_hbar" % (be, bad[0]), bad[1], be)
+            m1b, V1b, _ = sfrun.moments_of(s1, be, h1)
+            m2b, V2b, _ = sfrun.moments_of(s2, be, h2)
+            if float(np.max(np.abs(V1b - V1))) > tol * h1 or float(np.max(np.abs(V2b - V2))) > tol * h2 or float(np.max(np.abs(m1b - m1))) > tol or float(np.max(np.abs(m2b - m2))) > tol:
+                return _fail(ctx, case, labels, "%s.api.query_changed_state" % be, "means / cov read after the queries %s differ from those read before (hbar %g: %.3g, hbar %g: %.3g)" % (
+                    [q[0] for q in qs], h1, float(np.max(np.abs(V1b - V1))), h2, float(np.max(np.abs(V2b - V2)))), be)
     # second opinion: refsim at both values (Gaussian programs only)
     try:
         r1 = spec.ref_run(n, [o if o[0] != "Gaussian" else ["Gaussian", o[1], o[2], {}] for o in ops1], h1)
@@ -218,6 +349,11 @@ def check_fock(ctx, case):
     W2 = np.array(s2.wigner(0, xv * f, pv * f), float)
     if float(np.max(np.abs(W2 * f * f - W1))) > 1e3 * tol * (1 + float(np.max(np.abs(W1)))):
         return _fail(ctx, case, labels, "fock.api.wigner_not_covariant", "W2(fx, fp) f^2 differs from W1(x, p) by %.3g" % float(np.max(np.abs(W2 * f * f - W1))), "fock")
+    qs = [q for q in (case.get("queries") or []) if q[0] not in ("displacement",)]
+    labels += sorted({"api:" + q[0] for q in qs})
+    bad = compare_queries(run_queries(s1, qs, n, h1, D), run_queries(s2, qs, n, h2, D), h1, h2, tol)
+    if bad:
+        return _fail(ctx, case, labels, "fock.api.%s_depends_on_hbar" % bad[0], bad[1], "fock")
     ctx.note(case, nontrivial=_nontrivial(ops1), labels=labels)
     return None
 
